@@ -376,7 +376,7 @@ def run(ctx):
                        "with NoPanicAfterAccept/RuleRejected evaluated on every observed state; non-trivial = distinct accepted configurations "
                        "whose object was instantiated and served requests")
     ctx.assumptions += [
-        "value classes are concretised by the harness (one concrete value per class); 'any request' = the request classes of ConfigSpaceGrammar (HttpReqs, ServerReqs, MqttReqs, PolicyReqs; HTTP request paths are derived from the configured paths /a and /api: bare, trailing slash, extra segments, other case, percent-encoded, no segment boundary; SigReqs carry signatures made by the repository's signer with key k/secret s, k/empty secret, and a garbage signature header); TLC reports the (kind, class) pairs handled and the run is inconclusive when a class the specification lists was never sent",
+        "value classes are concretised by the harness (one concrete value per class); 'any request' = the request classes of ConfigSpaceGrammar (HttpReqs, ServerReqs, MqttReqs, PolicyReqs; HTTP request paths are derived from the configured paths /a and /api: bare, trailing slash, extra segments, other case, percent-encoded, no segment boundary; SigReqs carry signatures made by the repository's signer with key k/secret s, k/empty secret, and a garbage signature header; CtxReqs are requests whose context ends while they are served: cancelled before arrival, cancelled by the harness's backend while the backend call is in progress, deadline expiring while the backend call or a retry back-off is in progress; the server class 'abort' closes the connection in the middle of the announced body); enum-like string fields carry the value class 'a valid value in another letter case'; TLC reports the (kind, class) pairs handled and the run is inconclusive when a class the specification lists was never sent",
         "a filter is driven inside a real one-node Pipeline created through Supervisor.NewSpec (the admin API's validation); backends are local httptest servers, the cluster is clustertest.MockedCluster",
         "kinds that need external systems are validate-only (KafkaMQTT, Kafka, RemoteFilter, CertExtractor) or skipped (WasmHost: build tag; ConnectControl, TopicMapper, MQTTClientAuth: MQTT-session filters; service registries, AutoCertManager, mesh, tracing, HTTP/3)",
         "a panic in a goroutine owned by the object under test is observed as a crash of the harness process and attributed to the life-cycle call in flight",
